@@ -523,6 +523,11 @@ func (p *Parser) parseBuffer(buf []byte, last bool) (err error) {
 			p.tmp = append(p.tmp, b)
 		case tokenSpc:
 			p.addToken(off)
+		case tokenQuote:
+			// The token ends at a quote just as in the whole buffer scan of
+			// tokenStart. The quote is then taken in the mode after the token.
+			p.addToken(off)
+			off--
 		case tokenColon:
 			p.addToken(off)
 			p.mode = valueMap
